@@ -32,7 +32,7 @@ PARTIAL = [
     "singular normal equations (zero weights): only fitted values at positive weights are compared (unique there, "
     "C05.yhat_unique_on_support)",
 ]
-EXACT_MAX = dict(quick=26, thorough=45)
+EXACT_MAX = dict(quick=20, thorough=45)
 _TIER = ["quick"]
 
 
@@ -147,7 +147,7 @@ def _case(rng: Rng, d, tier, mode=None):
 
 def gen_cases(rng: Rng, tier):
     _TIER[0] = tier
-    n = dict(quick=136, thorough=700)[tier]
+    n = dict(quick=136, thorough=1400)[tier]
     plan = [1, 2, 1, 2, 3, 1, 2, 2]
     for k in range(n):
         yield _case(rng, plan[k % len(plan)], tier)
